@@ -331,12 +331,25 @@ def _docs(tier):
     return _DOCS[tier]
 
 
+GRID_SUBDIV = [1, 2, 3, 4, 5, 6, 7, 8, 9, 11, 12, 13, 16, 17, 24, 32, 48, 64, 96, 192]
+
+
 def roots(tier, seed):
     n = len(_docs(tier))
-    return [dict(kind="lanes")] + [dict(kind="docs", start=s, stop=min(n, s + CHUNK)) for s in range(0, n, CHUNK)]
+    return [dict(kind="lanes")] + [dict(kind="grid", n=k) for k in GRID_SUBDIV] + [dict(kind="docs", start=s, stop=min(n, s + CHUNK)) for s in range(0, n, CHUNK)]
+
+
+def check_grid(n, ctx):
+    """An object in EVERY slot of a line of n slots (two lanes, two measures), with a tempo change between them."""
+    doc = default_doc()
+    doc["events"] = [(1, F(i, n), "note", 1, "01" if i % 2 else "02") for i in range(n)] + [(2, F(i, n), "note", 3, "01") for i in range(0, n, 2)] + [(2, F(0), "t03", None, "5A")]
+    check_doc(doc, dict(devs=[f"grid={n}"], elems=[]), dict(grid=n), ctx, key=("grid", n))
 
 
 def explore(root, tier, ctx):
+    if root["kind"] == "grid":
+        check_grid(root["n"], ctx)
+        return
     if root["kind"] == "lanes":
         for name, chans in LANE_CH.items():
             for lane in range(len(chans)):
@@ -353,7 +366,9 @@ def explore(root, tier, ctx):
 
 
 def replay(case, ctx):
-    if "lane_probe" in case:
+    if "grid" in case:
+        check_grid(case["grid"], ctx)
+    elif "lane_probe" in case:
         name, lane = case["lane_probe"]
         doc = default_doc()
         doc["layout"] = name
